@@ -13,6 +13,7 @@
          xnew -= col @ (col.T @ xnew)
        applied to X_current_ (feature selection) or to X_current_.T, transposed back (sample
        selection), once per selection, in selection order               -> [resid_f]
+     _continue_greedy_search (warm start): re-orthogonalisation guard  -> [warm_guard_quiet]
      Y_feature_orthogonalizer(y, X_selected_, tol)                     -> [yfeat_prog]
          v = pinv(X.T @ X, rcond=tol)   (oracle: variable uV);  y - X @ v @ X.T @ y
        with X the whole zero-padded X_selected_ buffer                   -> [buf_f]
@@ -178,6 +179,7 @@ Fixpoint ysamp_res_f (n m p : nat) (X Y : fmat) (sel : list nat) (t : nat) (hs :
 
 Record refresh := mk_refresh {
   rf_t : nat;            (* n_selected_ when _compute_pi ran *)
+  rf_warm : bool;        (* the refresh of _continue_greedy_search (warm start) *)
   rf_V : fmat; rf_lam : fmat;          (* oracle: eigendecomposition of the model's matrix *)
   rf_UC : fmat; rf_vC : fmat;          (* oracle inside pcovr_covariance (feature PCov-CUR) *)
   rf_pi : fmat }.                      (* observed: what the implementation's _compute_pi returned *)
@@ -239,7 +241,19 @@ Section Case.
   Definition colv (A : fmat) : list float := map (fun row => nth 0 row 0) A.
   Definition holds (rs : float * float) : bool := leb (fst rs) (cp_eps P * (1 + snd rs)).
 
-  (* status of one refresh: 0 agrees, 1 gated (eigenvalue gap), 2 gated (an eigenvalue of X^T X is
+  (* _continue_greedy_search re-orthogonalises by every selected item c whose residual is not
+     negligible:  norm(X_current_[c]) > tolerance * norm(X[c])   (the relative guard of the repaired
+     code, fixes/F28; the unrepaired code compares with the absolute tolerance).  By
+     C07_residual_is_projection (iii) the residual of a selected item is exactly zero, so the guard
+     is quiet; the model checks that on its own residual and does not model a firing guard. *)
+  Definition item_norm_f (A : fmat) (j : nat) : float :=
+    if cc_sample c then pivot_norm_f m n (ftr m A) j else pivot_norm_f n m A j.
+  Definition warm_guard_quiet (t : nat) : bool :=
+    negb iter ||
+    forallb (fun j => leb (item_norm_f (Xat t) j) (cp_tol P * item_norm_f (cc_X c) j))
+            (firstn t (cc_sel c)).
+
+  (* status of one refresh: 5 the warm-start guard would fire in the model (not modelled), 0 agrees, 1 gated (eigenvalue gap), 2 gated (an eigenvalue of X^T X is
      next to rcond, or kept by rcond although X^T X is numerically singular: C^-1/2 then amplifies
      rounding noise), 3 an oracle hypothesis fails, 4 pi differs;  then (largest hypothesis residual
      relative to its bound's scale, largest |pi - pi_obs|) *)
@@ -272,7 +286,8 @@ Section Case.
     let pi := eval_f e' (pi_prog N) in
     let dev := fmaxabs (mmap2 sub pi (rf_pi r)) in
     let st :=
-      if cc_pcov c && negb (cc_sample c) && near then 2%nat
+      if rf_warm r && negb (warm_guard_quiet (rf_t r)) then 5%nat
+      else if cc_pcov c && negb (cc_sample c) && near then 2%nat
       else if negb (forallb holds hyps) then 3%nat
       else if negb gap_ok then 1%nat
       else if fclose (cp_pirtol P) (cp_piatol P) pi (rf_pi r) then 0%nat else 4%nat in
@@ -283,7 +298,7 @@ Section Case.
   (* flags: [X_current_ agrees; model residual orthogonal; observed residual orthogonal;
              y_current_ agrees; y-oracle hypotheses hold; no refresh fails]
      counters: [refreshes agreeing; gated by gap; gated by rcond; hypothesis failures; pi failures;
-                warning-branch pivots]
+                warning-branch pivots; warm-start guard firing in the model]
      floats: [max|X_cur - obs|; orthogonality defect model; defect observed; max|y_cur - obs|;
               worst y-hypothesis residual/scale; worst eigen-hypothesis residual/scale; worst pi deviation] *)
   Definition cc_report : list bool * list nat * list float :=
@@ -312,8 +327,8 @@ Section Case.
                    else raw_count_f n m (cp_tol P) X (cc_sel c))
                 else O in
     ([okx; leb dm bound; leb di bound; oky; forallb holds yh;
-      Nat.eqb (cnt 3%nat) 0 && Nat.eqb (cnt 4%nat) 0],
-     [cnt 0%nat; cnt 1%nat; cnt 2%nat; cnt 3%nat; cnt 4%nat; raws],
+      Nat.eqb (cnt 3%nat) 0 && Nat.eqb (cnt 4%nat) 0 && Nat.eqb (cnt 5%nat) 0],
+     [cnt 0%nat; cnt 1%nat; cnt 2%nat; cnt 3%nat; cnt 4%nat; raws; cnt 5%nat],
      [dx; dm; di; dy; wy; we; wp]).
 
   Definition cc_ok : bool := forallb (fun b => b) (fst (fst cc_report)).
